@@ -22,6 +22,7 @@ func init() {
 	reg("C06", "C06.R9", "E7", "every size-based truncation test is strict (position > size): a reader exactly at the end of the file is not re-read", 2, ruleTruncationStrict)
 	reg("C19", "C19.R9", "E2", "an event served from either pool is a regular event: a recycled split parent that kept its kind is skipped by Batch.ForEach and missing from every payload (same rule as C05.R8)", 2, ruleRecycledEventIsRegular)
 	reg("C02", "C02.R15", "E2", "a batch given up by the retry loop goes one way: every give-up exit empties the batch and marks it dead-queued (same rule as C09.R1 = C01.R6), so its events are not committed a second time", 1, ruleRetryLoopExits)
+	reg("C15", "C15.R13", "E6", "the line an earlier multi-line action reassembled in Event.Buf is never overwritten: actions only append to Event.Buf (same rule as C13.E)", 1, ruleEventBufAppendOnly)
 	reg("C03", "C03.R12", "E7", "every size-based truncation test is strict (same rule as C06.R9): offsets are zeroed only for a file that really shrank", 2, ruleTruncationStrict)
 }
 
